@@ -5,6 +5,7 @@ import (
 	"encoding/json"
 	"fmt"
 	"math"
+	"os"
 	"strings"
 
 	"github.com/robertkrimen/otto"
@@ -23,32 +24,43 @@ type Step struct {
 
 // Input is one self-contained case.
 type Input struct {
-	Op    string  `json:"op"` // acc | utc | ctor | set
+	// Op: acc (accessors/formatters of new Date(t)), utc (Date.UTC(args)),
+	// ctor (new Date(args), TZ=UTC), set (setter history on new Date(t)),
+	// iso (Date.parse / new Date of a 15.9.1.15 string S), prim (new Date(v)
+	// for a single non-number v described by S and T).
+	Op    string  `json:"op"`
 	T     gen.F   `json:"t"`
 	Args  []gen.F `json:"args,omitempty"`
 	Steps []Step  `json:"steps,omitempty"`
+	// Wrap "obj": every argument is passed as an object whose valueOf records
+	// its index (ToNumber order / completeness is then observed as well).
+	Wrap string `json:"wrap,omitempty"`
+	S    string `json:"s,omitempty"`
 }
 
 func init() {
 	run.Register(&run.Check{
 		ID:   "C12",
-		Rule: "cases are (operation, time value / field tuple / setter history) drawn from boundary-directed generators (era, year, month, leap-day boundaries +-1ms, range limits, fractional and non-finite values, field overflow); a case is non-trivial when the oracle result is a finite time value (or the case is an invalid-date propagation case) and it is distinct by (operation, era class, boundary kind, exact input)",
+		Rule: "cases are (operation, time value / field tuple / setter history / ISO text) drawn from boundary-directed generators (era, year, month, leap-day boundaries +-1ms, range limits, fractional and non-finite values, field overflow, two-digit years, every 15.9.1.15 format variant); a case is non-trivial when the oracle result is a finite time value (or the case is an invalid-date propagation case) and it is distinct by (operation, era class, exact input)",
 		Assumptions: []string{
-			"TZ=UTC for the multi-argument constructor; local-time accessors and Date.parse of non-ISO text are out of scope",
-			"oracle: internal/refdate (ES5.1 15.9.1 formulas in exact float64 integer arithmetic, no package time)",
+			"TZ=UTC (set by ./check and the driver): LocalTZA=0 and DaylightSavingTA=0, so local accessors/setters and the multi-argument constructor must agree with the UTC formulas; other time zones are not exercised",
+			"oracle: internal/refdate (ES5.1 15.9.1 formulas in exact float64 integer arithmetic, no package time; its own unit tests check it against hand-derived constants, an independent day-by-day calendar walk and an integer civil-from-days algorithm over the whole range)",
 			"Date.UTC with fewer than two arguments is implementation-dependent (15.9.4.3) and is not generated",
+			"toString/toDateString/toTimeString/toLocale*String/toUTCString contents are implementation-dependent (15.9.5.2-7, 15.9.5.42); only 'is \"Invalid Date\" exactly when the time value is NaN' is checked for them",
+			"Date.parse is only given strings of the 15.9.1.15 format (15.9.4.2 allows implementation-specific fallbacks for anything else); day-of-month beyond the month's length is not generated",
+			"field tuples keep |field| <= 2e8 outside the 'huge' class so that every IEEE operation of MakeTime/MakeDay/MakeDate is exact whenever the result is in range",
 		},
 		Floor: func(tier string) int {
 			if tier == "thorough" {
-				return 200000
+				return 1000000
 			}
-			return 5000
+			return 40000
 		},
 		Cases: func(tier string, seed uint64) int {
 			if tier == "thorough" {
-				return 3000000
+				return 10000000
 			}
-			return 60000
+			return 300000
 		},
 		Exec:   func(c *run.Ctx, i int) { checkOne(c, generate(c.Rng, i)) },
 		Replay: func(c *run.Ctx, raw json.RawMessage) { var in Input; mustUnmarshal(raw, &in); checkOne(c, in) },
@@ -68,7 +80,7 @@ var interestingYears = []float64{-271821, -271820, -200000, -100000, -10000, -99
 	1582, 1600, 1601, 1699, 1700, 1800, 1899, 1900, 1901, 1904, 1968, 1969, 1970, 1971, 1972, 1999, 2000, 2001, 2004, 2037, 2038, 2100, 2400, 9999, 10000, 100000, 200000, 275759, 275760}
 
 func genTime(r *gen.Rand) (float64, string) {
-	switch r.Intn(12) {
+	switch r.Intn(13) {
 	case 0: // uniform in range
 		return math.Trunc((r.Float64()*2 - 1) * 8.64e15), "uniform"
 	case 1: // near epoch
@@ -93,7 +105,8 @@ func genTime(r *gen.Rand) (float64, string) {
 		t := refdate.MakeDate(refdate.MakeDay(y, m, d), float64(r.Range(-2, 2)))
 		return t, "month-boundary"
 	case 6: // range limits
-		lim := []float64{8.64e15, -8.64e15, 8.64e15 + 1, -8.64e15 - 1, 8.64e15 - 1, -8.64e15 + 1, 8.64e15 + 2, 9e15, -9e15, 1e16, 1e17, -1e17, 1e21, 1e300}
+		lim := []float64{8.64e15, -8.64e15, 8.64e15 + 1, -8.64e15 - 1, 8.64e15 - 1, -8.64e15 + 1, 8.64e15 + 2, 9e15, -9e15, 1e16, 1e17, -1e17, 1e21, 1e300,
+			8.64e15 + 0.5, -8.64e15 - 0.5, 9007199254740992, 9.3e18, -9.3e18, math.MaxFloat64}
 		return lim[r.Intn(len(lim))], "range-limit"
 	case 7: // non-finite and zeros
 		sp := []float64{math.NaN(), math.Inf(1), math.Inf(-1), 0, math.Copysign(0, -1)}
@@ -110,14 +123,36 @@ func genTime(r *gen.Rand) (float64, string) {
 		return -float64(r.Range(1, 100000)), "negative-small"
 	case 10: // day boundaries
 		return float64(r.Range(-100000000, 100000000))*refdate.MsPerDay + float64(r.Range(-1, 1)), "day-boundary"
+	case 11: // large fractional / tiny
+		v := []float64{1e-300, -1e-300, 5e-324, 0.9999999999999999, -0.9999999999999999, 4503599627370495.5, -4503599627370495.5, 86399999.99999999, -86400000.00000001}
+		return v[r.Intn(len(v))], "fraction-edge"
 	}
 	// hour/minute/second boundaries
 	u := []float64{refdate.MsPerHour, refdate.MsPerMinute, refdate.MsPerSecond}[r.Intn(3)]
 	return float64(r.Range(-2000000000, 2000000000))*u + float64(r.Range(-1, 1)), "unit-boundary"
 }
 
+// genTimeValid is genTime restricted to values that are valid after TimeClip
+// most of the time (setter histories would otherwise mostly sit on NaN).
+func genTimeValid(r *gen.Rand) float64 {
+	for k := 0; k < 4; k++ {
+		t, _ := genTime(r)
+		if v := refdate.TimeClip(t); v == v {
+			return t
+		}
+	}
+	return float64(r.Range(-1000000, 1000000))
+}
+
+// HugeLimit: fields of larger magnitude overflow otto's int / time.Time
+// arithmetic (finding KF-C12-huge-field); the generator keeps them in a class
+// of their own.
+const HugeLimit = 2e8
+
+var hugeVals = []float64{2.5e8, 3e8, 1e9, 1e10, 9.3e12, 1e13, 1e15, 8.64e15, 1e16, 9007199254740992, 1e19, 9223372036854775808, 18446744073709551616, 1e21, 1e300}
+
 func genField(r *gen.Rand, pos int) float64 {
-	switch r.Intn(14) {
+	switch r.Intn(16) {
 	case 0:
 		return math.NaN()
 	case 1:
@@ -133,6 +168,14 @@ func genField(r *gen.Rand, pos int) float64 {
 		return math.Copysign(0, -1)
 	case 5:
 		return float64(r.Range(-40, 40))
+	case 6:
+		if r.Chance(1, 3) { // big but within every implementation's integer range
+			return float64(r.Range(-200000000, 200000000))
+		}
+	case 7:
+		if pos == 0 && r.Chance(1, 2) { // fractional years around the two-digit window
+			return []float64{-0.5, -0.9, -1e-9, 0.5, 99.5, 99.9, 99.99999, 100.5, -1.5, 1e-9}[r.Intn(10)]
+		}
 	}
 	switch pos {
 	case 0: // year
@@ -155,59 +198,84 @@ func genField(r *gen.Rand, pos int) float64 {
 	return float64(r.Range(-2, 1002))
 }
 
-var setters = []struct {
+type setter struct {
 	name string
 	max  int
-}{
-	{"setUTCMilliseconds", 1}, {"setUTCSeconds", 2}, {"setUTCMinutes", 3}, {"setUTCHours", 4},
-	{"setUTCDate", 1}, {"setUTCMonth", 2}, {"setUTCFullYear", 3}, {"setTime", 1},
+	pos  int // field position of the first argument (0 year .. 6 ms)
 }
 
-func setterFieldPos(name string, i int) int {
-	switch name {
-	case "setUTCMilliseconds":
-		return 6
-	case "setUTCSeconds":
-		return 5 + i
-	case "setUTCMinutes":
-		return 4 + i
-	case "setUTCHours":
-		return 3 + i
-	case "setUTCDate":
-		return 2
-	case "setUTCMonth":
-		return 1 + i
-	case "setUTCFullYear":
-		return i
+var setters = []setter{
+	{"setUTCMilliseconds", 1, 6}, {"setUTCSeconds", 2, 5}, {"setUTCMinutes", 3, 4}, {"setUTCHours", 4, 3},
+	{"setUTCDate", 1, 2}, {"setUTCMonth", 2, 1}, {"setUTCFullYear", 3, 0}, {"setTime", 1, -1},
+	{"setMilliseconds", 1, 6}, {"setSeconds", 2, 5}, {"setMinutes", 3, 4}, {"setHours", 4, 3},
+	{"setDate", 1, 2}, {"setMonth", 2, 1}, {"setFullYear", 3, 0}, {"setYear", 1, 0},
+}
+
+func setterByName(name string) *setter {
+	for i := range setters {
+		if setters[i].name == name {
+			return &setters[i]
+		}
 	}
-	return 0
+	return nil
+}
+
+func hasHuge(a []gen.F) bool {
+	for _, x := range a {
+		f := float64(x)
+		if f == f && !math.IsInf(f, 0) && math.Abs(f) > HugeLimit {
+			return true
+		}
+	}
+	return false
 }
 
 func generate(r *gen.Rand, i int) Input {
-	switch r.Intn(10) {
-	case 0, 1, 2, 3:
+	switch r.Intn(20) {
+	case 0, 1, 2, 3, 4, 5:
 		t, _ := genTime(r)
 		return Input{Op: "acc", T: gen.F(t)}
-	case 4, 5, 6:
+	case 6, 7, 8, 9, 10:
 		n := r.Range(2, 7)
 		args := make([]gen.F, n)
 		for k := range args {
 			args[k] = gen.F(genField(r, k))
 		}
-		op := "utc"
-		if r.Chance(1, 3) {
-			op = "ctor"
+		if r.Chance(1, 25) { // exactly one huge field
+			h := hugeVals[r.Intn(len(hugeVals))]
+			if r.Bool() {
+				h = -h
+			}
+			args[r.Intn(n)] = gen.F(h)
 		}
-		return Input{Op: op, Args: args}
+		in := Input{Op: "utc", Args: args}
+		if r.Chance(1, 3) {
+			in.Op = "ctor"
+		}
+		if r.Chance(1, 8) {
+			in.Wrap = "obj"
+		}
+		return in
+	case 11, 12:
+		return Input{Op: "iso", S: genISO(r)}
+	case 13:
+		return genPrim(r)
 	}
-	t, _ := genTime(r)
-	if r.Chance(1, 6) {
+	t := genTimeValid(r)
+	if r.Chance(1, 8) {
+		t, _ = genTime(r)
+	}
+	if r.Chance(1, 8) {
 		t = math.NaN()
 	}
 	n := r.Range(1, 4)
 	steps := make([]Step, n)
+	local := r.Chance(1, 3)
 	for k := range steps {
-		s := setters[r.Intn(len(setters))]
+		s := setters[r.Intn(8)]
+		if local {
+			s = setters[r.Intn(len(setters))]
+		}
 		na := r.Range(0, s.max)
 		if r.Chance(3, 4) && na == 0 {
 			na = 1
@@ -215,20 +283,163 @@ func generate(r *gen.Rand, i int) Input {
 		st := Step{Method: s.name}
 		for a := 0; a < na; a++ {
 			if s.name == "setTime" {
-				tv, _ := genTime(r)
+				tv := genTimeValid(r)
+				if r.Chance(1, 6) {
+					tv, _ = genTime(r)
+				}
 				st.Args = append(st.Args, gen.F(tv))
 			} else {
-				st.Args = append(st.Args, gen.F(genField(r, setterFieldPos(s.name, a))))
+				st.Args = append(st.Args, gen.F(genField(r, s.pos+a)))
 			}
+		}
+		if s.name != "setTime" && na > 0 && r.Chance(1, 40) {
+			h := hugeVals[r.Intn(len(hugeVals))]
+			if r.Bool() {
+				h = -h
+			}
+			st.Args[r.Intn(na)] = gen.F(h)
 		}
 		steps[k] = st
 	}
-	return Input{Op: "set", T: gen.F(t), Steps: steps}
+	in := Input{Op: "set", T: gen.F(t), Steps: steps}
+	if r.Chance(1, 8) {
+		in.Wrap = "obj"
+	}
+	return in
+}
+
+// genISO emits a string of the 15.9.1.15 format: mostly legal instances in
+// every format variant, sometimes with one element pushed out of its range.
+func genISO(r *gen.Rand) string {
+	var y float64
+	switch r.Intn(4) {
+	case 0:
+		y = interestingYears[r.Intn(len(interestingYears))]
+	case 1:
+		y = float64(r.Range(-271821, 275760))
+	default:
+		y = float64(r.Range(0, 9999))
+	}
+	var b strings.Builder
+	switch {
+	case y < 0:
+		fmt.Fprintf(&b, "-%06d", int64(-y))
+	case y > 9999 || r.Chance(1, 12):
+		fmt.Fprintf(&b, "+%06d", int64(y))
+	default:
+		fmt.Fprintf(&b, "%04d", int64(y))
+	}
+	leap := refdate.DaysInYear(y) == 366
+	mlen := []int{31, 28, 31, 30, 31, 30, 31, 31, 30, 31, 30, 31}
+	if leap {
+		mlen[1] = 29
+	}
+	bad := -1
+	if r.Chance(1, 6) {
+		bad = r.Intn(7)
+	}
+	dateForm := r.Intn(3) // 0: YYYY, 1: YYYY-MM, 2: YYYY-MM-DD
+	if dateForm >= 1 {
+		m := r.Range(1, 12)
+		if r.Chance(1, 3) {
+			m = 2
+		}
+		mm := m
+		if bad == 0 {
+			mm = []int{0, 13, 99}[r.Intn(3)]
+		}
+		fmt.Fprintf(&b, "-%02d", mm)
+		if dateForm == 2 {
+			d := r.Range(1, mlen[m-1])
+			if r.Chance(1, 3) {
+				d = mlen[m-1]
+			}
+			if bad == 1 {
+				d = []int{0, 32, 99}[r.Intn(3)]
+			}
+			fmt.Fprintf(&b, "-%02d", d)
+		}
+	}
+	timeForm := r.Intn(4) // 0: none, 1: HH:mm, 2: HH:mm:ss, 3: HH:mm:ss.sss
+	if timeForm >= 1 {
+		h, mi, s, ms := r.Range(0, 23), r.Range(0, 59), r.Range(0, 59), r.Range(0, 999)
+		if r.Chance(1, 4) {
+			h, mi, s, ms = []int{0, 23}[r.Intn(2)], []int{0, 59}[r.Intn(2)], []int{0, 59}[r.Intn(2)], []int{0, 999}[r.Intn(2)]
+		}
+		if r.Chance(1, 10) { // end-of-day form
+			h, mi, s, ms = 24, 0, 0, 0
+		}
+		switch bad {
+		case 2:
+			h = []int{25, 99}[r.Intn(2)]
+		case 3:
+			mi = []int{60, 99}[r.Intn(2)]
+		case 4:
+			if h == 24 {
+				mi = 1
+			} else {
+				s = []int{60, 99}[r.Intn(2)]
+			}
+		}
+		fmt.Fprintf(&b, "T%02d:%02d", h, mi)
+		if timeForm >= 2 {
+			fmt.Fprintf(&b, ":%02d", s)
+		}
+		if timeForm == 3 {
+			fmt.Fprintf(&b, ".%03d", ms)
+		}
+		switch r.Intn(4) {
+		case 0:
+			b.WriteString("Z")
+		case 1:
+			oh, om := r.Range(0, 23), []int{0, 30, 45, 59, 1}[r.Intn(5)]
+			if bad == 5 {
+				oh = []int{25, 99}[r.Intn(2)] // 24 is left out: see refdate.ParseISO
+			}
+			if bad == 6 {
+				om = []int{60, 99}[r.Intn(2)]
+			}
+			fmt.Fprintf(&b, "%s%02d:%02d", []string{"+", "-"}[r.Intn(2)], oh, om)
+		}
+	}
+	return b.String()
+}
+
+var primKinds = []string{"num-obj", "str-obj", "valueof-str", "tostring-only", "bool", "null", "undef", "date", "numstr-obj"}
+
+func genPrim(r *gen.Rand) Input {
+	k := primKinds[r.Intn(len(primKinds))]
+	t, _ := genTime(r)
+	switch k {
+	case "str-obj", "valueof-str", "tostring-only":
+		t = refdate.TimeClip(genTimeValid(r))
+		if t != t {
+			t = 0
+		}
+	case "date":
+		// ms = 0, year 0..9999 (15.9.4.2 round trip through toString)
+		t = math.Floor(r.Float64()*(253402300800000+62167219200000)/1000)*1000 - 62167219200000
+		if r.Chance(1, 3) {
+			t = refdate.TimeFromYear(float64(r.Range(0, 9999))) + float64(r.Range(0, 1))*1000
+		}
+	case "bool":
+		t = float64(r.Intn(2))
+	}
+	return Input{Op: "prim", S: k, T: gen.F(t)}
 }
 
 // ------------------------------------------------------------ oracle
 
-func utcOracle(a []float64) float64 {
+func floats(a []gen.F) []float64 {
+	o := make([]float64, len(a))
+	for i, x := range a {
+		o[i] = float64(x)
+	}
+	return o
+}
+
+// utcParts is 15.9.4.3 steps 1-8: the (day, time) pair handed to MakeDate.
+func utcParts(a []float64) (day, time float64) {
 	get := func(i int, def float64) float64 {
 		if i < len(a) {
 			return a[i]
@@ -243,10 +454,17 @@ func utcOracle(a []float64) float64 {
 			yr = 1900 + iy
 		}
 	}
-	return refdate.TimeClip(refdate.MakeDate(refdate.MakeDay(yr, m, dt), refdate.MakeTime(h, mi, s, ms)))
+	return refdate.MakeDay(yr, m, dt), refdate.MakeTime(h, mi, s, ms)
 }
 
-func setOracle(t float64, st Step) float64 {
+func utcOracle(a []float64) float64 {
+	return refdate.TimeClip(refdate.MakeDate(utcParts(a)))
+}
+
+// setParts is the (day, time) pair a setter hands to MakeDate (15.9.5.28-41,
+// B.2.5) with LocalTime = UTC = identity; t must be finite (or NaN for the
+// full-year setters, which then use +0).
+func setParts(t float64, st Step) (day, time float64) {
 	arg := func(i int, def float64) float64 {
 		if i < len(st.Args) {
 			return float64(st.Args[i])
@@ -255,55 +473,84 @@ func setOracle(t float64, st Step) float64 {
 	}
 	nan := math.NaN()
 	switch st.Method {
-	case "setTime":
-		return refdate.TimeClip(arg(0, nan))
-	case "setUTCMilliseconds":
-		time := refdate.MakeTime(refdate.HourFromTime(t), refdate.MinFromTime(t), refdate.SecFromTime(t), arg(0, nan))
-		return refdate.TimeClip(refdate.MakeDate(refdate.Day(t), time))
-	case "setUTCSeconds":
+	case "setUTCMilliseconds", "setMilliseconds":
+		return refdate.Day(t), refdate.MakeTime(refdate.HourFromTime(t), refdate.MinFromTime(t), refdate.SecFromTime(t), arg(0, nan))
+	case "setUTCSeconds", "setSeconds":
 		ms := arg(1, refdate.MsFromTime(t))
-		return refdate.TimeClip(refdate.MakeDate(refdate.Day(t), refdate.MakeTime(refdate.HourFromTime(t), refdate.MinFromTime(t), arg(0, nan), ms)))
-	case "setUTCMinutes":
+		return refdate.Day(t), refdate.MakeTime(refdate.HourFromTime(t), refdate.MinFromTime(t), arg(0, nan), ms)
+	case "setUTCMinutes", "setMinutes":
 		s := arg(1, refdate.SecFromTime(t))
 		ms := arg(2, refdate.MsFromTime(t))
-		return refdate.TimeClip(refdate.MakeDate(refdate.Day(t), refdate.MakeTime(refdate.HourFromTime(t), arg(0, nan), s, ms)))
-	case "setUTCHours":
+		return refdate.Day(t), refdate.MakeTime(refdate.HourFromTime(t), arg(0, nan), s, ms)
+	case "setUTCHours", "setHours":
 		m := arg(1, refdate.MinFromTime(t))
 		s := arg(2, refdate.SecFromTime(t))
 		ms := arg(3, refdate.MsFromTime(t))
-		return refdate.TimeClip(refdate.MakeDate(refdate.Day(t), refdate.MakeTime(arg(0, nan), m, s, ms)))
-	case "setUTCDate":
-		nd := refdate.MakeDate(refdate.MakeDay(refdate.YearFromTime(t), refdate.MonthFromTime(t), arg(0, nan)), refdate.TimeWithinDay(t))
-		return refdate.TimeClip(nd)
-	case "setUTCMonth":
+		return refdate.Day(t), refdate.MakeTime(arg(0, nan), m, s, ms)
+	case "setUTCDate", "setDate":
+		return refdate.MakeDay(refdate.YearFromTime(t), refdate.MonthFromTime(t), arg(0, nan)), refdate.TimeWithinDay(t)
+	case "setUTCMonth", "setMonth":
 		dt := arg(1, refdate.DateFromTime(t))
-		nd := refdate.MakeDate(refdate.MakeDay(refdate.YearFromTime(t), arg(0, nan), dt), refdate.TimeWithinDay(t))
-		return refdate.TimeClip(nd)
-	case "setUTCFullYear":
+		return refdate.MakeDay(refdate.YearFromTime(t), arg(0, nan), dt), refdate.TimeWithinDay(t)
+	case "setUTCFullYear", "setFullYear":
 		if t != t {
-			t = 0
+			t = 0 // 15.9.5.40/41 step 1
 		}
 		m := arg(1, refdate.MonthFromTime(t))
 		dt := arg(2, refdate.DateFromTime(t))
-		nd := refdate.MakeDate(refdate.MakeDay(arg(0, nan), m, dt), refdate.TimeWithinDay(t))
-		return refdate.TimeClip(nd)
+		return refdate.MakeDay(arg(0, nan), m, dt), refdate.TimeWithinDay(t)
+	case "setYear": // B.2.5
+		if t != t {
+			t = 0
+		}
+		y := arg(0, nan)
+		if y != y {
+			return nan, nan
+		}
+		if iy := refdate.ToInteger(y); iy >= 0 && iy <= 99 {
+			y = iy + 1900
+		}
+		return refdate.MakeDay(y, refdate.MonthFromTime(t), refdate.DateFromTime(t)), refdate.TimeWithinDay(t)
 	}
 	panic("unknown setter " + st.Method)
 }
 
-// NaN time values make every Day/..FromTime NaN; the formulas above then give
-// NaN through MakeTime/MakeDay's finiteness test because NaN propagates.
+func usesZeroForNaN(m string) bool {
+	return m == "setUTCFullYear" || m == "setFullYear" || m == "setYear"
+}
+
+// A NaN time value makes every ...FromTime NaN, which MakeTime/MakeDay turn
+// into NaN through their finiteness test; refdate's accessors are only defined
+// on finite t, so that propagation is made explicit here.
+func setOracle(t float64, st Step) float64 {
+	if st.Method == "setTime" {
+		if len(st.Args) == 0 {
+			return math.NaN()
+		}
+		return refdate.TimeClip(float64(st.Args[0]))
+	}
+	if t != t && !usesZeroForNaN(st.Method) {
+		return math.NaN()
+	}
+	return refdate.TimeClip(refdate.MakeDate(setParts(t, st)))
+}
 
 // ------------------------------------------------------------ driving otto
 
 var vm *otto.Otto
 var logger *ox.Logger
 
+const prelude = `var tr=[]; function W(i,v){return {valueOf:function(){tr.push(i);return v}}}
+function cls(s){return typeof s!=='string'?'?':(s==='Invalid Date'?'I':'S')}`
+
 func theVM() *otto.Otto {
 	if vm == nil {
 		vm = otto.New()
 		logger = &ox.Logger{}
 		logger.Install(vm, "log")
+		if _, err := vm.Run(prelude); err != nil {
+			panic(err)
+		}
 	}
 	return vm
 }
@@ -324,10 +571,12 @@ func eraClass(t float64) string {
 	return ">9999"
 }
 
-var accessors = []struct {
+type accessor struct {
 	name string
 	f    func(float64) float64
-}{
+}
+
+var accessors = []accessor{
 	{"getTime", func(t float64) float64 { return t }},
 	{"valueOf", func(t float64) float64 { return t }},
 	{"getUTCFullYear", refdate.YearFromTime},
@@ -338,23 +587,52 @@ var accessors = []struct {
 	{"getUTCMinutes", refdate.MinFromTime},
 	{"getUTCSeconds", refdate.SecFromTime},
 	{"getUTCMilliseconds", refdate.MsFromTime},
+	// local time = UTC under TZ=UTC
+	{"getFullYear", refdate.YearFromTime},
+	{"getMonth", refdate.MonthFromTime},
+	{"getDate", refdate.DateFromTime},
+	{"getDay", refdate.WeekDay},
+	{"getHours", refdate.HourFromTime},
+	{"getMinutes", refdate.MinFromTime},
+	{"getSeconds", refdate.SecFromTime},
+	{"getMilliseconds", refdate.MsFromTime},
+	{"getYear", func(t float64) float64 { return refdate.YearFromTime(t) - 1900 }}, // B.2.4
+	{"getTimezoneOffset", func(t float64) float64 { return 0 }},                     // (t - LocalTime(t)) / msPerMinute
 }
 
-func setArgs(v *otto.Otto, prefix string, a []gen.F) string {
+var formatters = []string{"toString", "toDateString", "toTimeString", "toLocaleString", "toLocaleDateString", "toLocaleTimeString", "toUTCString", "toGMTString"}
+
+func argList(v *otto.Otto, prefix string, a []gen.F, wrap bool) string {
 	names := make([]string, len(a))
 	for i, x := range a {
-		names[i] = fmt.Sprintf("%s%d", prefix, i)
-		v.Set(names[i], float64(x))
+		n := fmt.Sprintf("%s%d", prefix, i)
+		v.Set(n, float64(x))
+		if wrap {
+			n = fmt.Sprintf("W(%d,%s)", i, n)
+		}
+		names[i] = n
 	}
 	return strings.Join(names, ",")
 }
 
+func seq(n int) string {
+	var b strings.Builder
+	for i := 0; i < n; i++ {
+		b.WriteByte(byte('0' + i))
+	}
+	return "s:" + ox.Str(b.String())
+}
+
 func checkOne(c *run.Ctx, in Input) {
+	if os.Getenv("TZ") != "UTC" {
+		c.Inconclusive("TZ is not UTC")
+		return
+	}
 	v := theVM()
 	logger.Events = nil
 	c.Announce(in)
-	fail := func(site, exp, act string) {
-		c.Fail("mismatch", site, in, exp, act, "")
+	fail := func(site, exp, act, detail string) {
+		c.Fail("mismatch", site, in, exp, act, detail)
 	}
 	runJS := func(src string) (ox.Outcome, bool) {
 		out := ox.Run(v, src)
@@ -365,6 +643,7 @@ func checkOne(c *run.Ctx, in Input) {
 		}
 		return out, true
 	}
+	wrap := in.Wrap == "obj"
 	switch in.Op {
 	case "acc":
 		t := refdate.TimeClip(float64(in.T))
@@ -373,61 +652,91 @@ func checkOne(c *run.Ctx, in Input) {
 		for _, a := range accessors {
 			calls = append(calls, "d."+a.name+"()")
 		}
+		var fm []string
+		for _, f := range formatters {
+			fm = append(fm, "cls(d."+f+"())")
+		}
 		src := "var d=new Date(t); log(" + strings.Join(calls, ",") + ");" +
-			"var iso; try{iso=d.toISOString()}catch(e){iso='throw:'+e.name}; var j=d.toJSON(); log(iso, j, typeof iso==='string'&&iso.slice(0,6)!=='throw:'?Date.parse(iso):-1);"
+			"var iso; try{iso=d.toISOString()}catch(e){iso='throw:'+e.name}; var j; try{j=d.toJSON()}catch(e){j='throw:'+e.name}; log(iso, j);" +
+			"log(" + strings.Join(fm, "+") + ");"
+		if t == t {
+			v.Set("isoRef", refdate.ISO(t))
+			src += "log(Date.parse(isoRef), new Date(isoRef).getTime());"
+		}
 		out, ok := runJS(src)
 		if !ok {
 			return
 		}
-		if out.Err != nil || len(logger.Events) != 2 {
-			fail("Date:acc", "script completes", fmt.Sprint(out.Err))
+		want := 3
+		if t == t {
+			want = 4
+		}
+		if out.Err != nil || len(logger.Events) != want {
+			fail("Date:acc", "script completes", fmt.Sprint(out.Err), "")
 			return
 		}
 		got := strings.Split(logger.Events[0], ",")
-		c.Eval(len(accessors) + 3)
+		c.Eval(len(accessors) + 2 + len(formatters))
 		for k, a := range accessors {
 			exp := math.NaN()
 			if t == t {
 				exp = a.f(t) + 0
 			}
 			if e := "n:" + ox.Num(exp); got[k] != e {
-				fail(a.name, e, got[k])
+				fail(a.name, e, got[k], "")
 			}
 		}
 		g2 := strings.Split(logger.Events[1], ",")
 		if t != t {
 			if g2[0] != `s:"throw:RangeError"` {
-				fail("toISOString", `RangeError (15.9.5.43)`, g2[0])
+				fail("toISOString", `s:"throw:RangeError"`, g2[0], "15.9.5.43")
 			}
 			if g2[1] != "null" {
-				fail("toJSON", "null", g2[1])
+				fail("toJSON", "null", g2[1], "15.9.5.44")
 			}
+			if e := "s:" + ox.Str(strings.Repeat("I", len(formatters))); logger.Events[2] != e {
+				fail("formatters", e, logger.Events[2], strings.Join(formatters, ","))
+			}
+			c.Feature("acc:invalid-date")
 		} else {
 			iso := refdate.ISO(t)
-			if e := "s:" + ox.Str(iso); g2[0] != e {
-				fail("toISOString", e, g2[0])
-			} else if e := "n:" + ox.Num(t); g2[2] != e {
-				fail("Date.parse(toISOString)", e, g2[2])
+			e := "s:" + ox.Str(iso)
+			if g2[0] != e {
+				fail("toISOString", e, g2[0], "")
 			}
-			if e := "s:" + ox.Str(iso); g2[1] != e {
-				fail("toJSON", e, g2[1])
+			if g2[1] != e {
+				fail("toJSON", e, g2[1], "")
+			}
+			if e := "s:" + ox.Str(strings.Repeat("S", len(formatters))); logger.Events[2] != e {
+				fail("formatters", e, logger.Events[2], strings.Join(formatters, ","))
+			}
+			g3 := strings.Split(logger.Events[3], ",")
+			c.Eval(2)
+			if e := "n:" + ox.Num(t); g3[0] != e {
+				fail("Date.parse(iso)", e, g3[0], iso)
+			}
+			if e := "n:" + ox.Num(t); g3[1] != e {
+				fail("new Date(iso)", e, g3[1], iso)
+			}
+			if iso[0] == '+' || iso[0] == '-' {
+				c.Feature("acc:expanded-year-iso")
 			}
 		}
 		c.Sample(in)
 		c.Feature("op:acc")
 		c.Feature("era:" + eraClass(t))
+		if ft := float64(in.T); ft != math.Trunc(ft) {
+			c.Feature("acc:fractional-t")
+		}
 		c.Nontrivial(fmt.Sprintf("acc|%s|%v", eraClass(t), float64(in.T)))
 	case "utc", "ctor":
-		a := make([]float64, len(in.Args))
-		for i, x := range in.Args {
-			a[i] = float64(x)
-		}
+		a := floats(in.Args)
 		exp := utcOracle(a)
-		names := setArgs(v, "a", in.Args)
-		src := "log(Date.UTC(" + names + "))"
+		names := argList(v, "a", in.Args, wrap)
+		src := "tr.length=0; var r=Date.UTC(" + names + "); log(r, tr.join(''))"
 		site := "Date.UTC"
 		if in.Op == "ctor" {
-			src = "log(new Date(" + names + ").getTime())"
+			src = "tr.length=0; var r=new Date(" + names + ").getTime(); log(r, tr.join(''))"
 			site = "new Date(fields)"
 		}
 		out, ok := runJS(src)
@@ -436,16 +745,29 @@ func checkOne(c *run.Ctx, in Input) {
 		}
 		c.Eval(1)
 		if out.Err != nil || len(logger.Events) != 1 {
-			fail(site, "n:"+ox.Num(exp), "throw:"+fmt.Sprint(out.Err))
+			fail(site, "n:"+ox.Num(exp), "throw:"+fmt.Sprint(out.Err), "")
 			return
 		}
-		if e := "n:" + ox.Num(exp); logger.Events[0] != e {
-			fail(site, e, logger.Events[0])
+		g := strings.SplitN(logger.Events[0], ",", 2)
+		if e := "n:" + ox.Num(exp); g[0] != e {
+			fail(site, e, g[0], "")
+		}
+		if wrap {
+			// 15.9.3.1 / 15.9.4.3: ToNumber of every supplied argument, in order.
+			if e := seq(len(a)); g[1] != e {
+				fail(site+":coercion", e, g[1], "")
+			}
+			c.Feature("wrap:obj")
 		}
 		c.Sample(in)
 		c.Feature("op:" + in.Op)
 		c.Feature(fmt.Sprintf("nargs:%d", len(a)))
 		c.Feature("era:" + eraClass(exp))
+		if hasHuge(in.Args) {
+			c.Feature("fields:huge(region KF-C12-huge-field)")
+		} else {
+			c.Feature("fields:within-2e8")
+		}
 		if exp == exp {
 			c.Nontrivial(fmt.Sprintf("%s|%s|%v", in.Op, eraClass(exp), a))
 		}
@@ -455,15 +777,15 @@ func checkOne(c *run.Ctx, in Input) {
 		var b strings.Builder
 		b.WriteString("var d=new Date(t);")
 		for k, st := range in.Steps {
-			names := setArgs(v, fmt.Sprintf("s%d_", k), st.Args)
-			fmt.Fprintf(&b, "var r=d.%s(%s); log(r, d.getTime());", st.Method, names)
+			names := argList(v, fmt.Sprintf("s%d_", k), st.Args, wrap)
+			fmt.Fprintf(&b, "tr.length=0; var r=d.%s(%s); log(r, d.getTime(), tr.join(''));", st.Method, names)
 		}
 		out, ok := runJS(b.String())
 		if !ok {
 			return
 		}
 		if out.Err != nil || len(logger.Events) != len(in.Steps) {
-			fail("Date:set", "script completes", fmt.Sprint(out.Err))
+			fail("Date:set", "script completes", fmt.Sprint(out.Err), "")
 			return
 		}
 		cur := t
@@ -471,15 +793,38 @@ func checkOne(c *run.Ctx, in Input) {
 		for k, st := range in.Steps {
 			cur = setOracle(cur, st)
 			c.Eval(1)
+			g := strings.SplitN(logger.Events[k], ",", 3)
 			e := "n:" + ox.Num(cur) + ",n:" + ox.Num(cur)
-			if logger.Events[k] != e {
-				fail(st.Method, e, logger.Events[k]+fmt.Sprintf(" (step %d)", k))
+			detail := fmt.Sprintf("step=%d", k)
+			bad := false
+			if g[0]+","+g[1] != e {
+				fail(st.Method, e, g[0]+","+g[1], detail)
+				bad = true
+			}
+			if wrap {
+				n := len(st.Args)
+				if s := setterByName(st.Method); n > s.max {
+					n = s.max
+				}
+				if e := seq(n); g[2] != e {
+					fail(st.Method+":coercion", e, g[2], detail)
+					bad = true
+				}
+			}
+			if bad {
+				// the real object has left the model's trajectory
 				break
 			}
 			if cur == cur {
 				finite++
 			}
 			c.Feature("setter:" + st.Method)
+			if hasHuge(st.Args) {
+				c.Feature("fields:huge(region KF-C12-huge-field)")
+			}
+		}
+		if wrap {
+			c.Feature("wrap:obj")
 		}
 		c.Sample(in)
 		c.Feature("op:set")
@@ -487,5 +832,122 @@ func checkOne(c *run.Ctx, in Input) {
 			b, _ := json.Marshal(in)
 			c.Nontrivial("set|" + eraClass(cur) + "|" + string(b))
 		}
+	case "iso":
+		exp, rec := refdate.ParseISO(in.S)
+		if !rec {
+			c.Note("iso:not-of-the-format(skipped)")
+			return
+		}
+		v.Set("s", in.S)
+		out, ok := runJS("log(Date.parse(s), new Date(s).getTime())")
+		if !ok {
+			return
+		}
+		c.Eval(2)
+		if out.Err != nil || len(logger.Events) != 1 {
+			fail("Date.parse(iso)", "n:"+ox.Num(exp), "throw:"+fmt.Sprint(out.Err), in.S)
+			return
+		}
+		g := strings.Split(logger.Events[0], ",")
+		e := "n:" + ox.Num(exp)
+		if g[0] != e {
+			fail("Date.parse(iso)", e, g[0], in.S)
+		}
+		if g[1] != e {
+			fail("new Date(iso)", e, g[1], in.S)
+		}
+		c.Sample(in)
+		c.Feature("op:iso")
+		c.Feature(isoShape(in.S))
+		if exp == exp {
+			c.Feature("iso:legal")
+			c.Nontrivial("iso|" + in.S)
+		} else {
+			c.Feature("iso:illegal-element-or-out-of-range")
+		}
+	case "prim":
+		t := float64(in.T)
+		exp := refdate.TimeClip(t)
+		v.Set("t", t)
+		v.Set("isoRef", "")
+		if exp == exp {
+			v.Set("isoRef", refdate.ISO(exp))
+		}
+		var arg string
+		switch in.S {
+		case "num-obj": // ToPrimitive -> valueOf -> number
+			arg = "{valueOf:function(){return t}, toString:function(){return '1970'}}"
+		case "numstr-obj": // valueOf not primitive -> toString gives a number: still the number path
+			arg = "{valueOf:function(){return {}}, toString:function(){return t}}"
+		case "str-obj": // valueOf not primitive -> toString -> string -> parse
+			arg = "{valueOf:function(){return {}}, toString:function(){return isoRef}}"
+		case "valueof-str":
+			arg = "{valueOf:function(){return isoRef}, toString:function(){return 5}}"
+		case "tostring-only":
+			arg = "{toString:function(){return isoRef}}" // Object.prototype.valueOf returns the object itself
+		case "bool":
+			arg = "(t===1)"
+		case "null":
+			arg, exp = "null", 0
+		case "undef":
+			arg, exp = "undefined", math.NaN()
+		case "date": // 15.9.3.2 step 1: ToPrimitive(Date object) = its toString(); 15.9.4.2 round trip (to the second)
+			arg = "new Date(t)"
+			if exp == exp {
+				exp = math.Floor(exp/1000) * 1000
+			}
+		default:
+			panic("unknown prim kind " + in.S)
+		}
+		out, ok := runJS("log(new Date(" + arg + ").getTime())")
+		if !ok {
+			return
+		}
+		c.Eval(1)
+		site := "new Date(value):" + in.S
+		if out.Err != nil || len(logger.Events) != 1 {
+			fail(site, "n:"+ox.Num(exp), "throw:"+fmt.Sprint(out.Err), "")
+			return
+		}
+		if e := "n:" + ox.Num(exp); logger.Events[0] != e {
+			fail(site, e, logger.Events[0], "")
+		}
+		c.Sample(in)
+		c.Feature("op:prim")
+		c.Feature("prim:" + in.S)
+		if exp == exp {
+			c.Nontrivial(fmt.Sprintf("prim|%s|%v", in.S, t))
+		}
+	default:
+		panic("unknown op " + in.Op)
 	}
+}
+
+func isoShape(s string) string {
+	shape := "iso:"
+	i := 4
+	if s[0] == '+' || s[0] == '-' {
+		shape += "±YYYYYY"
+		i = 7
+	} else {
+		shape += "YYYY"
+	}
+	rest := s[i:]
+	d := rest
+	tm := ""
+	if k := strings.IndexByte(rest, 'T'); k >= 0 {
+		d, tm = rest[:k], rest[k:]
+	}
+	shape += []string{"", "-MM", "-MM-DD"}[len(d)/3]
+	if tm != "" {
+		z := ""
+		switch {
+		case strings.HasSuffix(tm, "Z"):
+			z, tm = "Z", tm[:len(tm)-1]
+		case len(tm) > 6 && (tm[len(tm)-6] == '+' || tm[len(tm)-6] == '-'):
+			z, tm = "±HH:mm", tm[:len(tm)-6]
+		}
+		shape += map[int]string{6: "THH:mm", 9: "THH:mm:ss", 13: "THH:mm:ss.sss"}[len(tm)] + z
+	}
+	return shape
 }
